@@ -94,9 +94,14 @@ def caller_facts(chk, prog, env):
     return facts
 
 
-def check_config_post(chk, prog, env, rule='C02.policy-table'):
+def check_config_post(chk, prog, env, rule='C02.policy-table', thorough=False):
     facts = caller_facts(chk, prog, env)
-    cells = T.config_post_table(prog, env, jwt_key='same' if facts['same_key'] else 'free')
+    if thorough:
+        # wider: more signature lengths
+        cells = T.config_post_table(prog, env, sig_lens=(0, 1, 2, 43, 86, 342, 1 << 20),
+                                    jwt_key='same' if facts['same_key'] else 'free')
+    else:
+        cells = T.config_post_table(prog, env, jwt_key='same' if facts['same_key'] else 'free')
     chk.coverage['caller_facts'] = facts
     bad = 0
     for c in cells:
@@ -139,8 +144,8 @@ def check_config_post(chk, prog, env, rule='C02.policy-table'):
     return cells
 
 
-def check_names(chk, prog, env):
-    to_str, to_alg, callees = T.alg_name_tables(prog, env)
+def check_names(chk, prog, env, thorough=False):
+    to_str, to_alg, callees, near = T.alg_name_tables(prog, env, thorough)
     bad = 0
     n = 0
     for name in ALGS:
@@ -161,7 +166,7 @@ def check_names(chk, prog, env):
             bad += 1
             chk.add(Finding('C02.alg-names', 'libjwt/jwt.c', 'jwt_alg_str', 'out-of-range',
                             'jwt_alg_str(%d) = %s, expected NULL' % (v, to_str.get(v))))
-    for nm in T.NEAR_MISS + [None]:
+    for nm in near + [None]:
         n += 1
         if to_alg.get(nm) != {env.INVAL}:
             bad += 1
@@ -338,8 +343,8 @@ def check_order(chk, prog, env):
 def run(chk, prog, tier):
     env = Env(prog)
     check_setkey(chk, prog, env)
-    check_config_post(chk, prog, env)
-    check_names(chk, prog, env)
+    check_config_post(chk, prog, env, thorough=(tier == 'thorough'))
+    check_names(chk, prog, env, thorough=(tier == 'thorough'))
     check_gate(chk, prog, env)
     check_order(chk, prog, env)
     chk.assumptions += ['asymmetric family mismatches among EC/RSA/OKP keys are refused by the providers and the crypto libraries '
